@@ -146,9 +146,17 @@ func runPikeTrace(args []string) {
 				if n > *maxSyms {
 					continue
 				}
-				u, v, wv := []int{}, h[:1], h[1:]
-				if li%2 == 1 {
+				// four pumping shapes: first symbol pumped / second symbol pumped / the whole pair pumped / pair pumped with the pair as tail
+				var u, v, wv []int
+				switch (li + picked) % 4 {
+				case 0:
+					u, v, wv = []int{}, h[:1], h[1:]
+				case 1:
 					u, v, wv = h[:1], h[1:], []int{}
+				case 2:
+					u, v, wv = []int{}, h, []int{}
+				default:
+					u, v, wv = h[1:], []int{h[1], h[0]}, h
 				}
 				k := n / len(v)
 				syms := pumpSyms(u, v, wv, k)
